@@ -1,5 +1,6 @@
 """Run rules against a scratch copy of /repo with a patch applied (never touches /repo):
 python3 -m sa.trypatch <abs patch> <Cxx[,Cyy]> [-v]"""
+from .core import unlisted as core_unlisted
 import sys
 from .scratch import Scratch, run_rule
 
@@ -16,7 +17,7 @@ def main():
             return 2
         for pid in pids:
             chk = run_rule(pid, sc.dir)
-            bad = [o for o in chk.obligations if o['status'] != 'ok']
+            bad = core_unlisted(chk)
             print(pid, 'obligations', len(chk.obligations), 'non-ok', len(bad))
             for o in bad[:(40 if verbose else 8)]:
                 print('   ', o['key'], o['status'], (o['detail'] or '')[:(1500 if verbose else 300)].replace('\n', ' '))
